@@ -85,7 +85,25 @@ ENUM_DOC = ("SOLVER-ENUMERATED: every argument of this obligation is a selector 
             "(chx.shim.fix_bool/fix_int) and the real code then runs untraced at native speed; the verdict is the exhaustion of the argument space by the solver")
 
 
-def _enumerated(fn, args):
+ISOLATED_DOC = ("ISOLATED: the body of every path runs in a FRESH interpreter (python -m chx.replay), because the obligation is about what an earlier call in the same process leaves "
+                "behind; state left by the paths explored before (module tables, caches, mutable default arguments) therefore cannot leak into the verdict")
+
+
+def _isolated_call(module, prop, oid, fixed):
+    """run the obligation body for the concrete arguments `fixed` in a fresh interpreter; returns its diagnostic string"""
+    import json
+    import subprocess
+    import sys
+
+    env = dict(_os.environ, CHX_REPLAY="1")
+    r = subprocess.run([sys.executable, "-m", "chx.replay", module, prop, oid, json.dumps(fixed)], capture_output=True, text=True, env=env, timeout=600)
+    for line in r.stdout.splitlines():
+        if line.startswith("REPLAY "):
+            return json.loads(line[7:]).get("diag", "")
+    return "EXC isolated run failed: " + (r.stderr or r.stdout)[-300:]
+
+
+def _enumerated(fn, args, isolated=None):
     """wrap `fn` so that every argument is made concrete by a fork and the body then runs outside the tracer (only for selector-only obligations)"""
     names = list(args)
 
@@ -105,6 +123,10 @@ def _enumerated(fn, args):
                 fixed[n] = fix_int(v, t[1], t[2])
             else:
                 raise TypeError("enumerated obligations take int/bool selectors only")
+        from chx.shim import REPLAYING
+
+        if isolated and not REPLAYING():
+            return untraced(lambda: _isolated_call(isolated[0], isolated[1], isolated[2], fixed))
         return untraced(lambda: fn(**fixed))
 
     body.__name__ = getattr(fn, "__name__", "body")
@@ -112,13 +134,13 @@ def _enumerated(fn, args):
     return body
 
 
-def ob(prop, oid, args, enum=False, **kw):
-    """decorator: register `fn` as obligation `oid` of property `prop`; enum=True: selector-only obligation, see ENUM_DOC"""
+def ob(prop, oid, args, enum=False, isolated=False, **kw):
+    """decorator: register `fn` as obligation `oid` of property `prop`; enum=True: selector-only obligation, see ENUM_DOC; isolated=True (with enum): see ISOLATED_DOC"""
 
     def deco(fn):
         if enum:
-            kw["assumes"] = list(kw.get("assumes", [])) + [ENUM_DOC]
-        o = Obligation(prop=prop, oid=oid, fn=_enumerated(fn, dict(args)) if enum else fn, args=dict(args), module=fn.__module__, **kw)
+            kw["assumes"] = list(kw.get("assumes", [])) + [ENUM_DOC] + ([ISOLATED_DOC] if isolated else [])
+        o = Obligation(prop=prop, oid=oid, fn=_enumerated(fn, dict(args), (fn.__module__, prop, oid) if isolated else None) if enum else fn, args=dict(args), module=fn.__module__, **kw)
         key = (prop, oid)
         if key in REGISTRY:
             raise RuntimeError("duplicate obligation %s.%s" % key)
